@@ -27,12 +27,16 @@ EXPECTED_PROBES = ['prev_mid_http', 'prev_mid_frame_header', 'prev_mid_ext_len',
                    'prev_mid_compressed', 'prev_while_closing', 'prev_rejected',
                    'prev_connect_fail', 'prev_abandoned', 'prev_protocol_error',
                    'prev_connect_fail_then_close', 'prev_close_on_connecting',
-                   'last_with_compression']
+                   'prev_close_truncated_reason', 'prev_bad_utf8_text',
+                   'prev_inflate_error', 'prev_sent_compressed',
+                   'last_declines_compression', 'last_with_compression']
 
 ENDINGS = ['mid_http', 'mid_frame_header', 'mid_ext_len', 'mid_payload',
            'mid_fragment_text', 'mid_compressed', 'while_closing', 'rejected',
            'connect_fail', 'abandoned', 'protocol_error', 'clean',
-           'request_fail', 'connect_fail_then_close', 'close_on_connecting']
+           'request_fail', 'connect_fail_then_close', 'close_on_connecting',
+           'close_truncated_reason', 'bad_utf8_text', 'inflate_error',
+           'sent_compressed']
 
 EXT = b'Sec-WebSocket-Extensions: permessage-deflate'
 
@@ -51,8 +55,9 @@ def make_case(family, i, rng, tier):
             e['at'] = rng.randrange(0, 8)
             e['mech'] = rng.choice(['break', 'raise', 'close'])
         prev.append(e)
-    compress = rng.random() < 0.6 or any(e['kind'] == 'mid_compressed'
-                                         for e in prev)
+    compress = rng.random() < 0.6 or any(
+        e['kind'] in ('mid_compressed', 'inflate_error', 'sent_compressed')
+        for e in prev)
     items = ST.make_items(rng, 5)
     for it in items:
         if it['kind'] in ('text', 'binary'):
@@ -80,7 +85,10 @@ def make_case(family, i, rng, tier):
             # absolute time) would decide between > and <=
             'gaps': [rng.choice([0, 300007, 1200011]) for _ in range(3)],
             'cut_seed': rng.getrandbits(32), 'seg': 'cuts', 'ncuts': 4,
-            'close_last': rng.choice(['server', 'app', 'none'])}
+            'close_last': rng.choice(['server', 'app', 'none']),
+            # the server of the LAST connection may decline the extension
+            # although earlier connections negotiated it
+            'last_declines': compress and rng.random() < 0.25}
 
 
 def _prev_conn(e, compress, attempt):
@@ -136,6 +144,25 @@ def _prev_conn(e, compress, attempt):
         return {'server': hs + [end]}, \
             [{'when': {'name': 'connecting', 'attempt': attempt},
               'do': [{'op': 'close', 'code': 1000, 'reason': 'early'}]}]
+    if k == 'close_truncated_reason':
+        # a Close whose reason is cut inside a character (invalid): any
+        # validator state it leaves behind must not reach the next connection
+        bad = peer.enc_frame(8, b'\x03\xe8caf\xc3')
+        return {'server': hs + [S.send(bad), end]}, rules
+    if k == 'bad_utf8_text':
+        fr = peer.enc_frame(1, b'ok \xe2\x82', fin=0) + \
+            peer.enc_frame(0, b'\x41 broken', fin=1)
+        return {'server': hs + [S.send(fr), end]}, rules
+    if k == 'inflate_error':
+        fr = peer.enc_frame(2, b'\x06\x00\x00', rsv1=1)
+        return {'server': S.handshake_steps([EXT]) + [S.send(fr), end]}, rules
+    if k == 'sent_compressed':
+        # the client itself compressed messages on the earlier connection
+        return {'server': S.handshake_steps([EXT]) + [
+            S.send(peer.enc_frame(1, b'go')), {'op': how, 'after': 1500017}]}, \
+            [{'when': {'name': 'text', 'attempt': attempt},
+              'do': [{'op': 'send_text', 'text': u'client says €uro ' * 8},
+                     {'op': 'send_binary', 'hex': '00ff' * 40}]}]
     if k == 'request_fail':
         return {'server': [], 'faults': [{'op': 'sendall', 'k': 0,
                                           'kind': 'reset'}]}, rules
@@ -157,11 +184,11 @@ def _prev_conn(e, compress, attempt):
 
 
 def _last(case, attempt):
-    compress = case['compress']
+    compress = case['compress'] and not case.get('last_declines')
     dp = peer.DeflatePeer()
 
     def transform(payload, it):
-        if it.get('z'):
+        if it.get('z') and compress:
             return dp.compress(payload), 1
         return payload, 0
 
@@ -276,8 +303,15 @@ def execute(case):
     kinds = [e['kind'] for e in case['prev']]
     for k in kinds:
         res.stats['probe:prev_' + k] += 1
-    if case['compress']:
+    if case['compress'] and not case.get('last_declines'):
         res.stats['probe:last_with_compression'] += 1
+    if case.get('last_declines'):
+        res.stats['probe:last_declines_compression'] += 1
+        wl = oracle.Wire(w.socks[-1])
+        if any(f.rsv1 for f in wl.frames):
+            res.bad('C17/rsv1_after_declined_reconnect',
+                    'the last connection did not negotiate permessage-'
+                    'deflate, yet the reused object wrote RSV1 frames')
     tag = kinds[-1] if kinds else 'none'
     for t_, which in ((tr_ref, 'fresh'), (tr, 'chain')):
         if t_.hang:
